@@ -176,7 +176,7 @@ class PeerStats:
         """
         return {
             name: len(req_times) / math.ceil(sum(req_times))
-            for name, req_times in self.processed_req_time.items()}
+            for name, req_times in list(self.processed_req_time.items())}
 
     @property
     def processed_req_per_second_overall(self) -> float:
@@ -202,7 +202,7 @@ class PeerStats:
         """
         return {
             name: sum(req_times) / len(req_times)
-            for name, req_times in self.processed_req_time.items()}
+            for name, req_times in list(self.processed_req_time.items())}
 
     @property
     def avg_response_time_overall(self) -> float:
